@@ -146,6 +146,10 @@ func genSchema(r *rand.Rand) *gSchema {
 			in := t
 			t = gTy{kind: 'l', of: &in}
 			if chance(r, 0.25) {
+				if chance(r, 0.4) {
+					inn := t // a list of non-null lists: [[T]!]
+					t = gTy{kind: 'N', of: &inn}
+				}
 				in2 := t
 				t = gTy{kind: 'l', of: &in2}
 			}
@@ -865,6 +869,26 @@ func (d *docGen) sels(container int, depth int) []sx.S {
 					cond := []string{"99", "98", "97"}[r.Intn(3)]
 					out = append(out, sx.L("in", iid, cond, sx.L("dirs"), sx.L("f", d.id(), "-", "0", sx.L("args"), sx.L("dirs"))))
 					d.defectInfo = sx.L("defect", "undefined-inline-cond", iid, cond)
+				case "undeclared-directive-arg":
+					// @skip / @include with a second argument they do not declare, given as a variable
+					nm := []string{"skip", "include"}[r.Intn(2)]
+					fdirs = append(fdirs, sx.L("d", nm, sx.L("undecl", sx.L("b", sx.A(r.Intn(2))), d.useVar(named(12)))))
+					d.defectInfo = sx.L("defect", "misplaced-directive", fid, "0")
+				case "undeclared-variable":
+					// a required argument given as a variable the operation does not declare
+					for _, a := range f.args {
+						if a.ty.kind == 'N' {
+							na := []sx.S{"args"}
+							for _, x := range args[1:] {
+								if sx.List(x)[1].(string) != strconv.Itoa(a.name) {
+									na = append(na, x)
+								}
+							}
+							args = append(na, sx.L("a", sx.A(a.name), sx.L("v", "77")))
+							d.defectInfo = sx.L("defect", "missing-required", fid, sx.A(a.name))
+							break
+						}
+					}
 				case "typename-arg":
 					// __typename declares no arguments
 					tid := d.id()
@@ -1415,7 +1439,7 @@ var profC10 = profile{noWrongType: true, unboundValues: true, pFail: 0.03, pIll:
 // c10Gen: valid documents with exactly one injected defect of the property's catalogue.
 func c10Gen(r *rand.Rand, tier string) []Case {
 	kinds := []string{"unknown-field", "undeclared-arg", "missing-required", "unknown-directive", "misplaced-directive",
-		"undefined-inline-cond", "undefined-fragment-cond", "directive-on-fragment-definition", "meta-field", "typename-arg"}
+		"undefined-inline-cond", "undefined-fragment-cond", "directive-on-fragment-definition", "meta-field", "typename-arg", "undeclared-directive-arg", "undeclared-variable"}
 	n := 3500
 	if tier == "thorough" {
 		n = 50000
